@@ -425,6 +425,52 @@ class Check:
                 raise MachineryError(f"trace spec {module}: postcondition false but no BAD line\n{r.out[-3000:]}")
         return r, n
 
+    def validate_trace_parallel(self, module, trace_path, *, chunks=8, timeout=1800, heap="4g", cfg_name=None):
+        """Monitor-style validation of a long trace split at scenario headers (lines with "ev":"hdr" and no
+        keepdigs:true) into `chunks` files that are validated by concurrent TLC processes. Returns
+        (list of (line, clause, detail) with ORIGINAL line numbers, total lines)."""
+        from concurrent.futures import ThreadPoolExecutor
+        lint_trace(trace_path)
+        with open(trace_path) as f:
+            lines = f.readlines()
+        n = len(lines)
+        starts = [i for i, ln in enumerate(lines) if '"ev":"hdr"' in ln and '"keepdigs":true' not in ln]
+        if not starts or starts[0] != 0:
+            raise MachineryError(f"{trace_path}: does not start with a scenario header")
+        target = max(1, n // chunks)
+        cuts = [0]
+        for st in starts[1:]:
+            if st - cuts[-1] >= target and len(cuts) < chunks:
+                cuts.append(st)
+        cuts.append(n)
+        parts = []
+        for k in range(len(cuts) - 1):
+            pth = Path(str(trace_path) + f".part{k}")
+            with open(pth, "w") as f:
+                f.writelines(lines[cuts[k]:cuts[k + 1]])
+            parts.append((pth, cuts[k]))
+
+        def one(arg):
+            pth, off = arg
+            r, cnt = self.validate_trace(module, pth, timeout=timeout, heap=heap, cfg_name=cfg_name)
+            return [(l + off, c, d) for (l, c, d) in r.bad], cnt
+        bad = []
+        total = 0
+        with ThreadPoolExecutor(max_workers=chunks) as ex:
+            for b, cnt in ex.map(one, parts):
+                bad += b
+                total += cnt
+        if total != n:
+            raise MachineryError(f"parallel validation consumed {total} of {n} lines")
+        for pth, _ in parts:
+            pth.unlink()
+
+        class R:  # same shape as TlcResult for bad_to_failures
+            pass
+        r = R()
+        r.bad = sorted(bad)
+        return r, n
+
     def add_failure(self, obs):
         self.failures.append(obs)
 
